@@ -747,3 +747,24 @@ def constructs(x, acc):
         for c in x.values():
             constructs(c, acc)
     return acc
+
+
+def facts_coq(facts):
+    items = []
+    for (n, k, v) in facts:
+        items.append("((%s, %s), %s)" % (cq_str(n), cq_list(k, lambda kv: "(mkFactKey %s %s)" % (cq_str(kv[0]), hv_coq(kv[1]))),
+                                          cq_list(v, lambda kv: "(mkFactValue %s %s)" % (cq_str(kv[0]), val_coq(kv[1])))))
+    return cq_list(items)
+
+
+def l3_policy_render(chunk):
+    """chunk: [(policy, this, fail_at, facts, (exit, top, log))]"""
+    names, defs, items = {}, [], []
+    for (p, this, fa, facts, (ex, top, log)) in chunk:
+        if id(p) not in names:
+            names[id(p)] = "pol%d" % len(names)
+            defs.append("Definition %s : policy := %s.\n" % (names[id(p)], cq_policy(p)))
+        items.append("(%s, %s, %d%%N, %s, %s)" % (names[id(p)], val_coq(this), fa, facts_coq(facts), summary_coq(ex, None, log)))
+    return ("".join(defs) + "Definition cases : list (policy * Value * N * list ((ident * list FactKey) * list FactValue) * summary) := %s.\n"
+            "Eval vm_compute in (mismatches (fun c => let '(p, this, fa, facts, s) := c in "
+            "summary_eqb (l3_policy p true \"C\" this (V_Struct (mkStruct \"Envelope\" [])) fa facts) s) cases).\n" % cq_list(items))
